@@ -196,6 +196,7 @@ func rulesExtract(p *Prog, r *Report, eng *Engine) {
 	}
 	nestedOK := false
 	collectorResult := false
+	var condAppendAcc ssa.Value // when set: the accumulator the host returns (checked against what ExtractLicenses returns)
 	if flatCall == nil {
 		// the flattening written in place: for _, alt := range expansion { for _, n := range alt { out = append(out, text(n)) } }
 		for _, al := range findAppendLoops(host) {
@@ -247,6 +248,16 @@ func rulesExtract(p *Prog, r *Report, eng *Engine) {
 				r.OK("E1", "ExtractLicenses|one string per node", p.pos(ext.Pos()), "full range, unconditional", "collector.add", true)
 			} else if why != "" {
 				r.Bad("E1", "ExtractLicenses|flatten", p.pos(ext.Pos()), "the texts are handed to a collector, but "+why)
+			} else if why2, at2, acc2, ok2 := condAppendPipeline(p, qz, host, hostCall); ok2 {
+				// the accumulator threaded through a helper that appends an item unless it has been seen
+				nestedOK = true
+				collectorResult = true
+				condAppendAcc = acc2
+				r.OK("E1", "ExtractLicenses|flatten-arg", p.pos(at2), "nested full ranges over the whole expansion of the parsed argument", "append-if-unseen helper", true)
+				r.OK("E1", "flatten|concatenates all", p.pos(at2), "every term of every alternative is visited unconditionally", "", true)
+				r.OK("E1", "ExtractLicenses|one string per node", p.pos(ext.Pos()), "full range, unconditional", "append-if-unseen helper", true)
+			} else if why2 != "" {
+				r.Bad("E1", "ExtractLicenses|flatten", p.pos(ext.Pos()), "the texts go through an append-if-unseen helper, but "+why2)
 			} else {
 				r.Unknown("E1", "ExtractLicenses|flatten", p.pos(ext.Pos()), "kind=undecided: no call that flattens the expansion was found")
 			}
@@ -435,6 +446,17 @@ func rulesExtract(p *Prog, r *Report, eng *Engine) {
 					continue
 				}
 				pv := qz.prov(ret.Results[0], 0)
+				if collectorResult && condAppendAcc != nil {
+					// the host returns its accumulator (checked by condAppendPipeline); ExtractLicenses must return
+					// the host's result (or that accumulator itself when it is its own host)
+					if (host == ext && ret.Results[0] == condAppendAcc) || (hostCall != nil && ret.Results[0] == ssa.Value(hostCall)) {
+						fusedDedup = true
+						r.OK("E1", "ExtractLicenses|result", p.pos(ret.Pos()), "the list built by the rendering and de-duplicating loops", "", false)
+					} else {
+						r.Bad("E1", "ExtractLicenses|result", p.pos(ret.Pos()), "the result is not the de-duplicated list of all strings: "+pv)
+					}
+					continue
+				}
 				if collectorResult {
 					// collectorPipeline has checked that what is returned is the collector's items
 					fusedDedup = true
@@ -1346,4 +1368,242 @@ func innermostRangeLoop(fn *ssa.Function, b *ssa.BasicBlock) (*ssa.BasicBlock, s
 		}
 	}
 	return best, bestColl
+}
+
+// condAppendHelper: h(list []K, seen map[K]…, item K) []K (parameters in any order) returns list unchanged when
+// item is in seen, and otherwise records item in seen and returns append(list, item). Returns the parameter
+// indices of list, seen and item.
+func condAppendHelper(p *Prog, h *ssa.Function) (int, int, int, bool) {
+	if h == nil || !p.inModuleLoose(h) || len(h.Params) != 3 || len(h.Blocks) == 0 || h.Signature.Results().Len() != 1 {
+		return 0, 0, 0, false
+	}
+	li, mi, ii := -1, -1, -1
+	for i, prm := range h.Params {
+		switch prm.Type().Underlying().(type) {
+		case *types.Slice:
+			li = i
+		case *types.Map:
+			mi = i
+		default:
+			ii = i
+		}
+	}
+	if li < 0 || mi < 0 || ii < 0 {
+		return 0, 0, 0, false
+	}
+	list, seen, item := ssa.Value(h.Params[li]), ssa.Value(h.Params[mi]), ssa.Value(h.Params[ii])
+	var lk *ssa.Lookup
+	var upd *ssa.MapUpdate
+	var app *ssa.Call
+	for _, b := range h.Blocks {
+		for _, in := range b.Instrs {
+			switch t := in.(type) {
+			case *ssa.Lookup:
+				if t.X != seen || t.Index != item || !t.CommaOk || lk != nil {
+					return 0, 0, 0, false
+				}
+				lk = t
+			case *ssa.MapUpdate:
+				if t.Map != seen || t.Key != item || upd != nil {
+					return 0, 0, 0, false
+				}
+				upd = t
+			case *ssa.Store:
+				// only the varargs cell of the append
+				if _, ok := t.Addr.(*ssa.IndexAddr); !ok || t.Val != item {
+					return 0, 0, 0, false
+				}
+			case ssa.CallInstruction:
+				c, isCall := t.(*ssa.Call)
+				bi, isB := t.Common().Value.(*ssa.Builtin)
+				if !isCall || !isB || bi.Name() != "append" || app != nil || c.Call.Args[0] != list {
+					return 0, 0, 0, false
+				}
+				elems, _ := appendedElems(c)
+				if len(elems) != 1 || elems[0] != item {
+					return 0, 0, 0, false
+				}
+				app = c
+			}
+		}
+	}
+	if lk == nil || upd == nil || app == nil {
+		return 0, 0, 0, false
+	}
+	for _, b := range h.Blocks {
+		ifi, ok := b.Instrs[len(b.Instrs)-1].(*ssa.If)
+		if !ok {
+			continue
+		}
+		ex, ok := ifi.Cond.(*ssa.Extract)
+		if !ok || ex.Tuple != ssa.Value(lk) || ex.Index != 1 {
+			return 0, 0, 0, false
+		}
+		found, notFound := b.Succs[0], b.Succs[1]
+		fr, ok1 := found.Instrs[len(found.Instrs)-1].(*ssa.Return)
+		if !ok1 || len(fr.Results) != 1 || fr.Results[0] != list {
+			return 0, 0, 0, false
+		}
+		for _, in := range found.Instrs {
+			if _, isU := in.(*ssa.MapUpdate); isU {
+				return 0, 0, 0, false
+			}
+		}
+		if !(notFound == upd.Block() || notFound.Dominates(upd.Block())) || !(notFound == app.Block() || notFound.Dominates(app.Block())) {
+			return 0, 0, 0, false
+		}
+		nr, ok2 := app.Block().Instrs[len(app.Block().Instrs)-1].(*ssa.Return)
+		if !ok2 || len(nr.Results) != 1 || nr.Results[0] != ssa.Value(app) {
+			return 0, 0, 0, false
+		}
+		return li, mi, ii, true
+	}
+	return 0, 0, 0, false
+}
+
+// condAppendPipeline recognises, in host, two nested unconditional full ranges over the whole expansion whose
+// body is acc = appendIfUnseen(acc, seen, text(node)) with a fresh seen-set used by nothing else, acc starting
+// empty and being what host returns. hostCall (may be nil) is the call that hands host the expansion and, for
+// a rendering function passed as a parameter, the function.
+func condAppendPipeline(p *Prog, qz *quantizer, host *ssa.Function, hostCall *ssa.Call) (why string, at token.Pos, acc ssa.Value, ok bool) {
+	for _, b := range host.Blocks {
+		for _, in := range b.Instrs {
+			c, isCall := in.(*ssa.Call)
+			if !isCall || c.Call.StaticCallee() == nil {
+				continue
+			}
+			li, mi, ii, isH := condAppendHelper(p, c.Call.StaticCallee())
+			if !isH || len(c.Call.Args) != 3 {
+				continue
+			}
+			at = c.Pos()
+			inner, isPhi := c.Call.Args[li].(*ssa.Phi)
+			if !isPhi {
+				return "the list handed to the helper is not the loop's accumulator", at, nil, false
+			}
+			mm, isMake := c.Call.Args[mi].(*ssa.MakeMap)
+			if !isMake {
+				return "the seen-set is not a fresh map", at, nil, false
+			}
+			for _, ref := range *mm.Referrers() {
+				if ref != ssa.Instruction(c) {
+					if _, isDbg := ref.(*ssa.DebugRef); !isDbg {
+						return "the seen-set is used by something other than the helper", at, nil, false
+					}
+				}
+			}
+			// the text
+			pv := qz.prov(c.Call.Args[ii], 0)
+			if tc, isTC := c.Call.Args[ii].(*ssa.Call); isTC && tc.Call.StaticCallee() == nil && hostCall != nil {
+				// rendered by a function the host was handed: what that function returns for the current element
+				if prm, isPrm := tc.Call.Value.(*ssa.Parameter); isPrm && len(tc.Call.Args) == 1 {
+					for i, hp := range host.Params {
+						if hp != prm || i >= len(hostCall.Call.Args) {
+							continue
+						}
+						fv := hostCall.Call.Args[i]
+						if ct, isCT := fv.(*ssa.ChangeType); isCT {
+							fv = ct.X
+						}
+						if rf, isFn := fv.(*ssa.Function); isFn && len(rf.Blocks) == 1 && len(rf.Params) == 1 {
+							if ret, isRet := rf.Blocks[0].Instrs[len(rf.Blocks[0].Instrs)-1].(*ssa.Return); isRet && len(ret.Results) == 1 {
+								qz.elemVar[rf.Params[0]] = qz.prov(tc.Call.Args[0], 0)
+								pv = qz.prov(ret.Results[0], 0)
+								delete(qz.elemVar, rf.Params[0])
+							}
+						}
+					}
+				}
+			}
+			if !(strings.Contains(pv, "reconstructedLicenseString(elem(") || strings.Contains(pv, ").reconstructedLicenseString(")) {
+				return "what is added is not the canonical text of the current node: " + pv, at, nil, false
+			}
+			ih, innerColl := innermostRangeLoop(host, c.Block())
+			if ih == nil || inner.Block() != ih {
+				return "the helper call is not in the range loop that carries its accumulator", at, nil, false
+			}
+			for _, pr := range ih.Preds {
+				if ih.Dominates(pr) && !(c.Block() == pr || c.Block().Dominates(pr)) {
+					return "a text is offered only conditionally", at, nil, false
+				}
+			}
+			ld, isLd := innerColl.(*ssa.UnOp)
+			if !isLd || ld.Op != token.MUL {
+				return "the inner loop does not range over an alternative of the expansion", at, nil, false
+			}
+			ia, isIA := ld.X.(*ssa.IndexAddr)
+			if !isIA || isRangeIndexOf(ia.Index, ia.X) != nil {
+				return "the inner loop does not range over an alternative of the expansion", at, nil, false
+			}
+			xv := qz.prov(ia.X, 0)
+			if !expandCollRe.MatchString(strings.Replace(xv, "param:expression", "param:testExpression", 1)) {
+				return "the outer loop does not range over the whole expansion of the parsed expression: " + xv, at, nil, false
+			}
+			oh := rangeHeaderOf(ia.Index)
+			if oh == nil {
+				return "no outer range loop", at, nil, false
+			}
+			for _, pr := range oh.Preds {
+				if oh.Dominates(pr) && !(ih == pr || ih.Dominates(pr)) {
+					return "an alternative is skipped", at, nil, false
+				}
+			}
+			// accumulator chain: outer phi (empty start, inner phi) ← inner phi (outer phi, helper result)
+			var outer *ssa.Phi
+			for _, e := range inner.Edges {
+				switch x := e.(type) {
+				case *ssa.Call:
+					if x != c {
+						return "the accumulator is updated by something other than the helper", at, nil, false
+					}
+				case *ssa.Phi:
+					if x.Block() != oh || outer != nil {
+						return "the accumulator does not come from the outer loop", at, nil, false
+					}
+					outer = x
+				default:
+					return "the accumulator has an unexpected incoming value", at, nil, false
+				}
+			}
+			if outer == nil {
+				return "the accumulator is not carried by the outer loop", at, nil, false
+			}
+			for _, e := range outer.Edges {
+				switch x := e.(type) {
+				case *ssa.Phi:
+					if x != inner {
+						return "the outer accumulator merges with another list", at, nil, false
+					}
+				case *ssa.Const:
+					if !x.IsNil() {
+						return "the accumulator does not start empty", at, nil, false
+					}
+				case *ssa.Slice:
+					a, isA := x.X.(*ssa.Alloc)
+					if !isA {
+						return "the accumulator does not start empty", at, nil, false
+					}
+					if arr, isArr := a.Type().Underlying().(*types.Pointer).Elem().Underlying().(*types.Array); !isArr || arr.Len() != 0 {
+						return "the accumulator does not start empty", at, nil, false
+					}
+				case *ssa.MakeSlice:
+					if k, isK := x.Len.(*ssa.Const); !isK || k.Value == nil || k.Int64() != 0 {
+						return "the accumulator does not start empty", at, nil, false
+					}
+				default:
+					return "the accumulator does not start empty", at, nil, false
+				}
+			}
+			// the host returns the accumulator
+			for _, rb := range host.Blocks {
+				if ret, isRet := rb.Instrs[len(rb.Instrs)-1].(*ssa.Return); isRet && host != nil && hostCall != nil {
+					if len(ret.Results) != 1 || ret.Results[0] != ssa.Value(outer) {
+						return "the helper's caller does not return the accumulator", at, nil, false
+					}
+				}
+			}
+			return "", at, outer, true
+		}
+	}
+	return "", token.NoPos, nil, false
 }
